@@ -2,7 +2,7 @@
 property's own domain and observables, (3) search for a concrete failing input when (1) or (2) breaks."""
 import json, os, random, sys, time
 import vlib, gens
-import props_split, props_quote, props_tree
+import props_split, props_quote, props_tree, props_parse
 from vlib import Result, hexs, unhex, log
 
 
@@ -185,7 +185,8 @@ def c13(res, st):
                         "token.KeywordsMap is read through the translator (Gen/Keywords.v)"]
 
 
-CHECKS = {"C19": lambda res, st: props_tree.c19(res, st, std_coq), "C17": lambda res, st: props_tree.c17(res, st, std_coq), "C20": c20, "C13": c13, "C15": lambda res, st: props_quote.c15(res, st, std_coq), "C12": lambda res, st: props_split.c12(res, st, std_coq, lexer_inputs)}
+CHECKS = {"C04": lambda res, st: props_parse.c04(res, st, std_coq), "C01": lambda res, st: props_parse.c01(res, st, std_coq),
+          "C02": lambda res, st: props_parse.c01(res, st, std_coq), "C19": lambda res, st: props_tree.c19(res, st, std_coq), "C17": lambda res, st: props_tree.c17(res, st, std_coq), "C20": c20, "C13": c13, "C15": lambda res, st: props_quote.c15(res, st, std_coq), "C12": lambda res, st: props_split.c12(res, st, std_coq, lexer_inputs)}
 
 
 def run(pid, tier, seed):
